@@ -74,9 +74,19 @@ def main():
             rc, out = sh("go test -mod=mod -vet=off -count=1 ./... 2>&1 | grep -v 'no test files'", repo)
             res["tests_pass"] = ("FAIL" not in out) and ("ok" in out)
             if not res["tests_pass"]:
-                # the suite has a few timing-dependent tests: one retry
-                rc, out = sh("go test -mod=mod -vet=off -count=1 ./... 2>&1 | grep -v 'no test files'", repo)
-                res["tests_pass"] = ("FAIL" not in out) and ("ok" in out)
+                # the suite has a few timing-dependent tests (pkg/scanner uses the fixed directory /tmp/scannertest, pkg/cursor and
+                # pkg/container compare wall-clock times): failing packages are re-run alone, up to three times each
+                failed = sorted(set(re.findall(r"^(?:FAIL|---\s*FAIL)?\s*FAIL\s+(github.com/logrange/logrange/\S+)", out, re.M)))
+                still = []
+                for pk in failed:
+                    rel = "./" + pk.split("github.com/logrange/logrange/")[1]
+                    for _ in range(3):
+                        rc2, out2 = sh("go test -mod=mod -vet=off -count=1 %s" % rel, repo)
+                        if rc2 == 0: break
+                    else:
+                        still.append(pk)
+                res["tests_pass"] = bool(failed) and not still
+                if failed: res["flaky_reruns"] = failed
                 if not res["tests_pass"]: res["test_output"] = out[-500:]
             ok1, d1 = run_demo()
             res["demo_fails_with"] = (ok1 is False)
